@@ -357,15 +357,27 @@ Proof.
   apply sqrt_0.
 Qed.
 
+Lemma forallb_repeat_eqb v n : forallb (fun x => oeqb ROps x v) (repeat v n) = true.
+Proof.
+  induction n as [|n IH]; cbn [repeat forallb]; [reflexivity|]. rewrite IH. cbn [oeqb ROps].
+  replace (Reqb v v) with true by (symmetry; apply Reqb_true; reflexivity). reflexivity.
+Qed.
+Lemma col_constant_repeat X j v : col ROps j X = repeat v (length X) -> col_constant ROps X j = true.
+Proof.
+  intros Hc. unfold col_constant. rewrite Hc. generalize (length X). intros [|n]; [reflexivity|].
+  cbn [repeat]. apply forallb_repeat_eqb.
+Qed.
+
+(* a constant column is rejected through the exact test; and (independently) through the deviation
+   test, since its deviation is 0 < epsilon in exact arithmetic (col_std_constant) *)
 Lemma rescale_constant_column_err X j v :
   X <> [] -> (j < ncols X)%nat -> col ROps j X = repeat v (length X) -> rescale_x ROps X = None.
 Proof.
   intros HX Hj Hc. unfold rescale_x.
   replace (existsb _ _) with true; [reflexivity|].
-  symmetry. apply existsb_exists. exists (col_std ROps X j). split.
-  - apply in_map. apply in_seq. lia.
-  - rewrite (col_std_constant X j v HX Hc). cbn [oltb oabs osub o0 ROps].
-    apply Rltb_true. rewrite Rminus_0_r, Rabs_R0. apply c_eps_pos.
+  symmetry. apply existsb_exists. exists j. split.
+  - apply in_seq. lia.
+  - rewrite (col_constant_repeat X j v Hc). reflexivity.
 Qed.
 
 Lemma lasso_constant_column_err opt X y alpha tol max_iter j v :
